@@ -453,3 +453,136 @@ def c07_latency(tr, out, snaps_by_market, case):
             out.rule("clock")
             if cb["now"] != cb["pt"]:
                 out.v("utcnow-differs-from-publish-time", {"callback": cb["kind"]}, callback=cb)
+
+
+# -------------------------------------------------------------------------------------------
+# C08 settlement
+# -------------------------------------------------------------------------------------------
+
+
+def settle_fragment(side, p, s, status, market_type, k_dead_heat, ew_div):
+    """Profit of one fill (p, s) from first principles.  side BACK; LAY is the negation."""
+    if market_type == "EACH_WAY":
+        if status == "WINNER":
+            v = s * (p - 1) + s * (p - 1) / ew_div
+        elif status == "PLACED":
+            v = s * (p - 1) / ew_div - s
+        elif status == "LOSER":
+            v = -2 * s
+        else:
+            v = 0.0
+    else:
+        if status == "WINNER":
+            k = k_dead_heat
+            v = s / k * (p - 1) - s * (k - 1) / k
+        elif status == "LOSER":
+            v = -s
+        else:
+            v = 0.0
+    return v if side == "BACK" else -v
+
+
+def c08_settlement(tr, out, snaps_by_market, case):
+    closing = {}
+    for m, snaps in snaps_by_market.items():
+        for s in snaps:
+            if s["status"] == "CLOSED":
+                closing[m] = s
+                break
+    by_market_client = collections.defaultdict(list)
+    twins = collections.defaultdict(list)
+    for o, ss in tr.samples.items():
+        cl = [s for s in ss if s["phase"] == "closed"]
+        if not cl:
+            continue
+        s = cl[0]
+        m = s["market"]
+        snap = closing.get(m)
+        if snap is None:
+            continue
+        rs = snap["runners"].get(tuple(s["sel"]), {}).get("status")
+        nw_def = snap["number_of_winners"]
+        n_win = sum(1 for r in snap["runners"].values() if r["status"] == "WINNER")
+        k = n_win if (nw_def and n_win > nw_def) else 1
+        mt = snap["market_type"]
+        d = (snap["md"] or {}).get("eachWayDivisor") or 1
+        frags = s["frags"]
+        matched = sum(f[2] for f in frags)
+        out.rule("order-profit")
+        tags = {"market_type": mt, "result": rs, "otype": s["otype"], "side": s["side"], "dead_heat": k > 1}
+        if s["runner_status"] != rs:
+            out.v("runner-status-not-copied", tags, order=o, sample=s, file_status=rs)
+        if s["sm"] > 0:
+            by_market_client[(m, s["client"])].append((o, s["profit"]))
+        else:
+            by_market_client[(m, s["client"])]
+        if s.get("ladder") == "LINE_RANGE":
+            res = (case.get("line_results") or {}).get(m)
+            out.d("c08:LINE:%s:%s" % (s["side"], "none" if res is None else ("tie" if any(f[1] == res for f in frags) else "decided")))
+            if res is None or not frags:
+                if abs(s["profit"]) > 1e-9:
+                    out.v("profit-without-result-or-fill", tags, order=o, sample=s)
+                continue
+            # even money against the struck line; orientation is the code's own, the magnitude and the
+            # opposite-sides relation are what the property states
+            if abs(abs(s["profit"]) - round(matched, 2)) > 0.011:
+                out.v("line-not-even-money", tags, order=o, sample=s)
+            twins[(m, tuple(s["sel"]), repr(sorted((f[1], f[2]) for f in frags)), "LINE", res)].append((s["side"], s["profit"], o))
+            continue
+        exp = sum(settle_fragment(s["side"], f[1], f[2], rs, mt, k, d) for f in frags)
+        tol = 0.005 * matched * (1 + (1.0 / d if mt == "EACH_WAY" else 0)) + 0.01
+        out.d("c08:%s:%s:%s:%s:%s:%d" % (mt, rs, s["otype"], s["side"], k, min(len(frags), 3)))
+        if abs(s["profit"] - exp) > tol:
+            out.v("profit-differs-from-settlement", tags, order=o, sample=s, expected=exp, tol=tol)
+        if frags:
+            out.rule("avg-price")
+            true_avg = sum(f[1] * f[2] for f in frags) / matched if matched else 0
+            if abs(true_avg - s["apm"]) > 0.005 + 1e-9:
+                out.v("average-price-off", tags, order=o, sample=s, true_avg=true_avg)
+            twins[(m, tuple(s["sel"]), repr(sorted((f[1], f[2]) for f in frags)), s["otype"] if s["otype"] == "LIMIT" else "SP", None)].append((s["side"], s["profit"], o))
+    for key, lst in twins.items():
+        backs = [x for x in lst if x[0] == "BACK"]
+        lays = [x for x in lst if x[0] == "LAY"]
+        for b in backs:
+            for l in lays:
+                out.rule("twin")
+                if abs(b[1] + l[1]) > 1e-9:
+                    is_line = key[3] == "LINE"
+                    out.v("twins-not-opposite", {"kind": key[3], "line_tie": bool(is_line and _line_tie(key))}, back=b, lay=l, fills=key[2], result=key[4])
+    # market level cleared summaries
+    rates = {c.get("username", "sim%d" % i): c.get("commission", 0.05) for i, c in enumerate(case.get("clients") or [{}])}
+    seen = collections.Counter()
+    for ev in tr.logs:
+        if ev["type"] != "CLEARED_MARKETS":
+            continue
+        for pl in ev.get("payload") or ():
+            m = pl["market_id"]
+            out.rule("cleared-market")
+            # attribute to a client: the events are emitted per client in framework order
+            seen[m] += 1
+    names = list(rates)
+    per_market_events = collections.defaultdict(list)
+    for ev in tr.logs:
+        if ev["type"] == "CLEARED_MARKETS":
+            for pl in ev.get("payload") or ():
+                per_market_events[pl["market_id"]].append(pl)
+    for m, evs in per_market_events.items():
+        if m not in closing:
+            continue
+        # one summary per client per closing update, in client order
+        for j, pl in enumerate(evs):
+            cname = names[j % len(names)]
+            orders = by_market_client.get((m, cname), [])
+            exp_profit = round(sum(p for _, p in orders), 2)
+            exp_comm = round(max(exp_profit * rates[cname], 0), 2)
+            if abs(pl["profit"] - exp_profit) > 0.0051 or pl["bet_count"] != len(orders):
+                out.v("cleared-summary-differs", {"field": "profit/bet_count"}, market=m, client=cname, payload=pl, expected_profit=exp_profit, expected_count=len(orders))
+            if abs(pl["commission"] - exp_comm) > 0.0051 or pl["commission"] < 0:
+                out.v("cleared-summary-differs", {"field": "commission"}, market=m, client=cname, payload=pl, expected=exp_comm)
+
+
+def _line_tie(key):
+    import ast
+
+    fills = ast.literal_eval(key[2])
+    return key[4] is not None and any(abs(p - key[4]) < 1e-9 for p, _ in fills)
